@@ -1359,7 +1359,11 @@ namespace xsimd
         {
             if (std::is_signed<T>::value)
             {
-                return sadd(self, -other);
+                // clamp self so that self - other cannot overflow (-other would, for other == MIN)
+                auto mask = (other >> (8 * sizeof(T) - 1));
+                auto other_pos_branch = max(std::numeric_limits<T>::min() + other, self);
+                auto other_neg_branch = min(std::numeric_limits<T>::max() + other, self);
+                return select(batch_bool<T, A>(mask.data), other_neg_branch, other_pos_branch) - other;
             }
             else
             {
